@@ -8,11 +8,10 @@ export CARGO_NET_OFFLINE=true
 OUT=$D/confirm.txt; : > $OUT
 DEMO=$(ls tests/seeded_*.rs 2>/dev/null | head -1); DN=$(basename "$DEMO" .rs)
 [ -n "$DEMO" ] || { echo "no demonstration" | tee -a $OUT; exit 1; }
-git stash list >/dev/null
-# (1) the patch is exactly the src change
-git diff -- src > /tmp/mut/$N.cur.diff
-if ! diff -q /tmp/mut/$N.cur.diff patch.diff >/dev/null; then echo "NOTE: patch.diff differs from current src diff; using current diff" | tee -a $OUT; cp /tmp/mut/$N.cur.diff patch.diff; fi
-rm -f /tmp/mut/$N.cur.diff
+# (1) the worktree is reset to the original sources and the agent's patch.diff is applied (never `git stash`:
+#     the stash is shared by all worktrees of a repository and concurrent agents can pop each other's entries)
+git checkout -q -- src || exit 2
+git apply patch.diff || { echo "patch.diff does not apply to the original sources" | tee -a $OUT; exit 1; }
 OTHER=$(git status --short | grep -v '^??' | grep -v ' src/' | head -5)
 [ -z "$OTHER" ] || { echo "tracked files outside src/ modified: $OTHER" | tee -a $OUT; exit 1; }
 echo "changed lines: $(grep -c '^[+-][^+-]' patch.diff)" >> $OUT
@@ -28,9 +27,9 @@ echo "== demonstration with the change" >> $OUT
 timeout 1500 cargo test --offline --test $DN > $D/demo_with.log 2>&1; RC3=$?
 grep -E "^test |^test result" $D/demo_with.log | head -20 >> $OUT; echo "demo-with rc=$RC3" >> $OUT
 # (4) demonstration on the original sources
-git stash push -q -- src
+git checkout -q -- src
 echo "== demonstration on the original code" >> $OUT
 timeout 1500 cargo test --offline --test $DN > $D/demo_without.log 2>&1; RC4=$?
 grep -E "^test |^test result" $D/demo_without.log | head -20 >> $OUT; echo "demo-without rc=$RC4" >> $OUT
-git stash pop -q
+git apply patch.diff
 if [ $RC2 -eq 0 ] && [ $RC3 -ne 0 ] && [ $RC4 -eq 0 ]; then echo "CONFIRMED $N" | tee -a $OUT; exit 0; else echo "NOT CONFIRMED $N (suite=$RC2 with=$RC3 without=$RC4)" | tee -a $OUT; exit 1; fi
